@@ -61,14 +61,17 @@ def open_findings():
         return {k['id'] for k in json.load(open(kp))} if os.path.exists(kp) else set()
 
 
-def mkq(e, ch, cap, n, m, ub, extra=None, budget=120):
+USES_P = ['erase_pc', 'erase_p', 'erase_it', 'erase_itit', 'insert_nc', 'insert_self'] + ['insert_cs', 'insert_pc', 'insert_s', 'insert_spc', 'insert_sp', 'insert_v', 'insert_vpc', 'insert_vp']
+
+
+def mkq(e, ch, cap, n, m, ub, extra=None, budget=120, p=None):
     cfg = {'CH': ch, 'CAP': cap, 'N_': n, 'M_': m}
     if ch == 'char':
         cfg['HAVE_REPL_CS'] = 1
     if extra:
         cfg.update(extra)
     big = (cap + 3) * CSZ[ch] + 16
-    rot = (cap if e in ('insert_nc', 'insert_self') else min(n + m, cap)) + 3     # etl::rotate: TRE turns the recursion into an outer loop; both loops are bounded by the number of rotated characters
+    rot = (cap if e in ('insert_nc', 'insert_self') else min(n + m, cap)) - (p or 0) + 3     # etl::rotate: TRE turns the recursion into an outer loop; both loops are bounded by the number of rotated characters
     rname = 'K__ZN3etl6rotateIP%sEET_S2_S2_S2_' % MANGLE[ch]
     unwind = cap + 4
     inst = {}
@@ -103,34 +106,61 @@ def clamp(cap, xs):
     return sorted({x for x in xs if 0 <= x <= cap})
 
 
-def grid(profile, cap):
-    """-> (pre-sizes N for single-operand ops, (N, M) pairs for two-operand mutators, (N, M) pairs for searches/comparisons, M list for constructors)"""
+RANGE_REPL = ['repl_pcpc', 'repl_itpc', 'repl_pcspc', 'repl_pcsp']      # symbolic sub-range on both sides: as costly as a rotate
+TWO_MUT_LIGHT = [e for e in TWO_MUT if e not in RANGE_REPL]
+ONE_HEAVY = ['erase_val', 'erase_if', 'insert_self', 'repl_itnc']           # cost grows steeply with N and has no position to enumerate
+# searches that stay cheap on a long haystack (used to check size()/data() of long and full strings at capacities >= 15)
+CHEAP_SRCH = {'sw_c', 'ew_c', 'find_c', 'ffo_c', 'ffno_c', 'cmp_s', 'cmp_s2', 'cmp_cs', 'cmp_v', 'cmp_pcs', 'cmp_pcv', 'cmp_pccs', 'cmp_pcpc', 'cmp_pcspc', 'cmp_pcsp',
+              'cmp_pcvpc', 'cmp_pcvp', 'sw_v', 'sw_cs', 'ew_v', 'ew_cs', 'rel_ss', 'rel_scs', 'rel_css'}
+
+
+def plan(profile, cap):
+    """Configuration lists for one (CH, CAP):
+    one: N for single-operand mutators/observers/searches; one_rot: (N, P) for rotate-based single-operand ops (P = enumerated position or None = symbolic);
+    mut: (N, M) for two-operand mutators without a rotate; heavy: (N, M) for range replaces; rot2: (N, M, P) for two-operand inserts;
+    sr: (N, M) for searches/comparisons; src: M for constructors from a second operand."""
     mid = cap // 2
+    S = None
     if cap == 0:
-        return [0], [(0, 0)], [(0, 0)], [0]
+        return dict(one=[0], one_rot=[(0, S)], mut=[(0, 0)], heavy=[(0, 0)], rot2=[(0, 0, S)], sr=[(0, 0)], src=[0])
     if cap == 1:
-        return [0, 1], [(0, 0), (0, 1), (1, 0), (1, 1)], [(0, 1), (1, 1)] + ([(1, 0), (0, 0)] if profile == 'all' else []), [0, 1]
-    if profile == 'light':      # one interior pre-state: exact fit and first overflow
-        return [mid], [(mid, cap - mid), (mid, cap - mid + 1)], [(mid, 2)], [cap]
-    if profile == 'edge':       # light + the full string (tiny layout: the size byte is the terminator)
-        return [mid, cap], [(mid, cap - mid), (mid, cap - mid + 1), (cap, 1)], [(mid, 2), (cap, 1)], [cap]
-    if profile == 'full':
-        return ([0, mid, cap], [(0, cap), (mid, 1), (mid, cap - mid), (mid, cap - mid + 1), (cap, 1)],
-                [(0, 1), (mid, 1), (mid, 2), (cap, 1)], [0, 1, cap])
-    if profile == 'wide':       # five pre-sizes, operand lengths around the fit boundary
+        prs = [(0, 0), (0, 1), (1, 0), (1, 1)]
+        return dict(one=[0, 1], one_rot=[(0, S), (1, S)], mut=prs, heavy=prs, rot2=[(n, m, S) for n, m in prs], sr=[(0, 1), (1, 1)] + ([(1, 0), (0, 0)] if profile == 'all' else []), src=[0, 1])
+    if cap <= 8:    # positions, counts and contents fully symbolic from every listed pre-size
+        if profile == 'light':      # one interior pre-state: exact fit and first overflow
+            ns, prs, sr, src = [mid], [(mid, cap - mid), (mid, cap - mid + 1)], [(mid, 2)], [cap]
+        elif profile == 'full':
+            ns, prs, sr, src = [0, mid, cap], [(0, cap), (mid, 1), (mid, cap - mid), (mid, cap - mid + 1), (cap, 1)], [(0, 1), (mid, 1), (mid, 2), (cap, 1)], [0, 1, cap]
+        elif profile == 'all':      # every pre-size; operand lengths 0, 1, 2 and around the fit boundary; searches up to 3 and cap
+            ns = list(range(cap + 1))
+            prs = [(n, m) for n in ns for m in clamp(cap, [0, 1, cap - n, cap - n + 1])]
+            sr, src = [(n, m) for n in ns for m in clamp(cap, [1, 2, 3])] + [(0, 0), (cap, 0)], list(range(cap + 1))
+        else:
+            raise ValueError(profile)
+        return dict(one=ns, one_rot=[(n, S) for n in ns], mut=prs, heavy=prs, rot2=[(n, m, S) for n, m in prs], sr=sr, src=src)
+    # capacities >= 15: the rotate (insert/erase) and the range replaces cost 20-120 s with a symbolic position once N >= 8
+    # (DESIGN.md C04 $), so they run fully symbolic from a short pre-state and with an enumerated tail position from long/full ones
+    if profile == 'light':
+        return dict(one=[mid], one_rot=[(3, S)], mut=[(mid, cap - mid), (mid, cap - mid + 1)], heavy=[(3, 1)], rot2=[(3, 1, S)], sr=[(3, 2)], src=[cap])
+    if profile in ('edge', 'full'):
+        return dict(one=[mid, cap] + ([0] if profile == 'full' else []), one_rot=[(3, S), (cap, cap - 1)],
+                    mut=[(mid, cap - mid), (mid, cap - mid + 1), (cap, 1)] + ([(0, cap), (mid, 1)] if profile == 'full' else []),
+                    heavy=[(3, 1)], rot2=[(3, 1, S), (cap - 1, 1, cap - 2)], sr=[(3, 2), (cap, 1)] + ([(0, 1), (3, 1)] if profile == 'full' else []), src=[cap] + ([0, 1] if profile == 'full' else []))
+    if profile == 'wide':
         ns = clamp(cap, [0, 1, mid, cap - 1, cap])
-        return (ns, [(n, m) for n in ns for m in clamp(cap, [0, 1, cap - n, cap - n + 1])],
-                [(n, m) for n in ns for m in clamp(cap, [1, 2])] + [(0, 0)], clamp(cap, [0, 1, mid, cap - 1, cap]))
-    if profile == 'all':        # every pre-size; operand lengths 0, 1, 2 and around the fit boundary; searches up to 3 and cap
-        ns = list(range(cap + 1))
-        return (ns, [(n, m) for n in ns for m in clamp(cap, [0, 1, 2, cap - n - 1, cap - n, cap - n + 1, cap])],
-                [(n, m) for n in ns for m in clamp(cap, [0, 1, 2, 3, cap])], list(range(cap + 1)))
+        return dict(one=ns, one_rot=[(0, S), (1, S), (3, S), (4, S), (mid, mid - 1), (mid, mid), (cap - 1, cap - 2), (cap, cap - 1), (cap, cap - 2), (cap, cap)],
+                    mut=[(n, m) for n in ns for m in clamp(cap, [1, cap - n, cap - n + 1])], heavy=[(3, 1), (3, 2), (4, 4), (2, 3)],
+                    rot2=[(3, 1, S), (3, 2, S), (2, 3, S), (mid, 1, mid - 1), (mid, 2, mid), (cap - 1, 1, cap - 2), (cap - 1, 1, cap - 1), (cap - 2, 2, cap - 2), (cap, 1, cap - 1)],
+                    sr=[(0, 1), (1, 1), (3, 1), (3, 2), (4, 3), (mid, 2), (cap, 1), (cap, 2)], src=clamp(cap, [0, 1, mid, cap - 1, cap]))
     raise ValueError(profile)
 
 
 QUICK = [('char', 1, 'full'), ('char', 7, 'full'), ('char', 15, 'edge'), ('char', 16, 'full'), ('char16_t', 7, 'light'), ('char16_t', 16, 'light')]
 THOROUGH = ([('char', 0, 'all'), ('char', 1, 'all'), ('char', 7, 'all'), ('char', 15, 'wide'), ('char', 16, 'wide'), ('char', 31, 'edge'), ('char', 255, 'huge'), ('char', 256, 'huge')]
-            + [(ch, cap, pr) for ch in ('wchar_t', 'char8_t', 'char16_t', 'char32_t') for cap, pr in ((0, 'all'), (1, 'full'), (7, 'full'), (15, 'edge'), (16, 'full'), (31, 'light'))])
+            + [(ch, cap, pr) for ch in ('wchar_t', 'char16_t') for cap, pr in ((0, 'all'), (1, 'full'), (7, 'full'), (15, 'light'), (16, 'edge'), (31, 'light'))]
+            + [(ch, cap, pr) for ch in ('char8_t', 'char32_t') for cap, pr in ((0, 'all'), (1, 'full'), (7, 'light'), (16, 'edge'))])
+QUICK_C02 = [('char', 7, 'light'), ('char', 16, 'light')]
+ERASERS = ('erase_pc', 'erase_p', 'erase_0', 'erase_it', 'erase_itit', 'erase_val', 'erase_if')
 
 
 def queries(tier, prop='C04'):
@@ -138,54 +168,101 @@ def queries(tier, prop='C04'):
     if prop == 'C04':
         validate()
     combos = QUICK if tier == 'quick' else THOROUGH
+    if ub:
+        combos = QUICK_C02 if tier == 'quick' else QUICK
     if os.environ.get('C04_COMBOS'):     # development aid: C04_COMBOS=char:7:full,char16_t:16:light
         combos = [(c.split(':')[0], int(c.split(':')[1]), c.split(':')[2]) for c in os.environ['C04_COMBOS'].split(',')]
     opn = open_findings()
     out = []
     seen = set()
 
-    def add(e, ch, cap, n, m, **kw):
+    def add(e, ch, cap, n, m, p=None, chk=False):
         if not applicable(e, ch, cap, n, m, tier):
             return
-        key = (e, ch, cap, n, m)
+        if cap >= 15 and n > 4:
+            if e in ONE_HEAVY or (e in SEARCH_LIKE and e not in CHEAP_SRCH):
+                return
+        if chk and e in ('append_it', 'append_s', 'pluseq_s', 'append_self') and n + (n if e == 'append_self' else m) > cap:
+            return    # these append with push_back, whose documented precondition is size() < capacity()
+        key = (e, ch, cap, n, m, p, chk)
         if key in seen:
             return
         seen.add(key)
-        q = mkq(e, ch, cap, n, m, ub, **kw)
-        # configurations that lie wholly inside an open known-finding region (HARNESS.md): only the confirm query may use them
+        extra = {}
+        if p is not None and e in USES_P:
+            extra['P_'] = p
+        if chk:
+            extra['CHK'] = 1
+        q = mkq(e, ch, cap, n, m, ub, extra=extra, p=p if e in USES_P else None)
+        # configurations that lie wholly inside an open known-finding region (HARNESS.md): only a confirm query may use them
+        inside = False
         if 'C04_swap_full_tiny' in opn and e in ('swap', 'swap_free') and cap < 16 and (n == cap or m == cap) and n != m:
-            q['confirm_only'] = True
+            inside = True
         if 'C04_replace_keeps_size' in opn and e in ('repl_pcs', 'repl_its', 'repl_pccs', 'repl_itcs') and m > n:
-            q['confirm_only'] = True   # these overloads take the whole replacement: its length can only equal the replaced length if M <= N
+            inside = True   # these overloads take the whole replacement: its length can only equal the replaced length if M <= N
+        if chk and 'C04_erase_all_contract' in opn and e in ERASERS and (n == 0 or e == 'erase_0' or (e == 'erase_it' and n == 1)):
+            inside = True
+        if chk and 'C04_replace_contract' in opn and ((e in ('repl_pcs', 'repl_pccs') and m >= n) or (e == 'repl_pcpc' and n == 0) or (e in ('repl_pcspc', 'repl_pcsp') and (n == 0 or m == 0))):
+            inside = True
+        if inside:
+            q['confirm_only'] = True
         out.append(q)
 
     for ch, cap, profile in combos:
         huge = profile == 'huge'
         if huge:   # capacities 255/256 (size field switches from 8 to 16 bit): no rotate-based operations, no searches
-            ns, mut, sr, src = [0, cap - 1, cap], [(0, 1), (cap - 1, 1), (cap - 1, 2), (cap, 0)], [(cap, 2)], [cap]
+            pl = dict(one=[0, cap - 1, cap], one_rot=[], mut=[(0, 1), (cap - 1, 1), (cap - 1, 2), (cap, 0)], heavy=[], rot2=[], sr=[(cap, 2)], src=[cap])
         else:
-            ns, mut, sr, src = grid(profile, cap)
+            pl = plan(profile, cap)
         dn = min(3, cap)     # pre-size for the default-argument forms
         for e in CONS:
             add(e, ch, cap, 0, 0)
-        for m in src:
+        for m in pl['src']:
             for e in SRC:
                 add(e, ch, cap, 0, m)
-        for n in ns:
-            for e in ONE_MUT + ONE_SRCH + ([] if huge else ONE_ROT):
+        for n in pl['one']:
+            for e in ONE_MUT + ONE_SRCH:
                 add(e, ch, cap, n, 0)
+        for n, p in pl['one_rot']:
+            for e in ONE_ROT:
+                add(e, ch, cap, n, 0, p)
         if not huge and cap >= 2:
-            add('insert_nc', ch, cap, cap - 2, 0)
-        for n, m in mut:
-            for e in TWO_MUT + ([] if huge else TWO_ROT):
+            add('insert_nc', ch, cap, cap - 2, 0, None if cap <= 8 else cap - 2)
+        for n, m in pl['mut']:
+            for e in TWO_MUT_LIGHT:
                 add(e, ch, cap, n, m)
-        for n, m in sr:
+        for n, m in pl['heavy']:
+            for e in RANGE_REPL:
+                add(e, ch, cap, n, m)
+        for n, m, p in pl['rot2']:
+            for e in TWO_ROT:
+                add(e, ch, cap, n, m, p)
+        for n, m in pl['sr']:
             for e in TWO_SRCH:
                 add(e, ch, cap, n, m)
         for e in ONE_DEF:       # default-argument forms: one configuration per capacity
             add(e, ch, cap, dn, 0)
         for e in TWO_DEF:
             add(e, ch, cap, dn, min(2, cap))
+        # ---- contract-checked build (cfg CHK): a fired TETL_PRECONDITION on a call that std::basic_string accepts is a failed
+        # obligation; the mutators and element access, char only
+        if ch == 'char' and not huge and cap in ((7,) if tier == 'quick' else (7, 16)) and not ub:
+            small = cap <= 8
+            mid = cap // 2 if small else 3
+            for e in CONS:
+                add(e, ch, cap, 0, 0, chk=True)
+            for e in SRC:
+                add(e, ch, cap, 0, 1, chk=True)
+            for n, p in ([(0, None), (mid, None), (cap, None if small else cap - 1)] + ([] if tier == 'quick' else [(1, None), (cap - 1, None if small else cap - 2)])):
+                for e in ONE_ROT + ['clear', 'pop_back', 'push_back', 'resize_nc', 'append_nc', 'access', 'set_at']:
+                    add(e, ch, cap, n, 0, p, chk=True)
+            for e in ONE_MUT:
+                add(e, ch, cap, mid, 0, chk=True)
+            for n, m in ([(mid, 1), (mid, 2)] if tier == 'quick' else [(mid, 1), (mid, 2), (1, 1), (2, 2)]):
+                for e in TWO_MUT + TWO_ROT:
+                    add(e, ch, cap, n, m, chk=True)
+            for e in TWO_MUT_LIGHT:
+                add(e, ch, cap, cap - 1, 1, chk=True)
     return out
 
 
